@@ -87,6 +87,7 @@ def _mk():
     add("sl2_d", "{0}[::-1, -1:]", cond=D2, fam="slice")
     add("sl2_e", "{0}[..., 1:]", cond=D2, fam="slice")
     add("tk_201", "{0}[[2, 0, 1]]", cond="a0.ndim>=1 and a0.shape[0]>=3", fam="take")
+    add("tk_2302", "{0}[[2, 3, 0, 2]]", cond="a0.ndim>=1 and a0.shape[0]>=4", fam="take")
     add("tk_00", "{0}[[0, 0]]", cond=NE, fam="take")
     add("tk_m1_0", "{0}[[-1, 0]]", cond=NE, fam="take")
     add("tk2_ax1", "{0}[:, [1, 0]]", cond="a0.ndim>=2 and a0.shape[1]>=2", fam="take")
